@@ -3252,6 +3252,18 @@ class QuicConnection:
             reason_phrase = ""
 
         reason_bytes = reason_phrase.encode("utf8")
+
+        # the reason phrase is only informational, shorten it if needed so that
+        # the frame always fits in the packet
+        max_reason_length = max(
+            0, builder.remaining_buffer_space - TRANSPORT_CLOSE_FRAME_CAPACITY
+        )
+        if len(reason_bytes) > max_reason_length:
+            reason_bytes = (
+                reason_bytes[:max_reason_length]
+                .decode("utf8", "ignore")
+                .encode("utf8")
+            )
         reason_length = len(reason_bytes)
 
         if frame_type is None:
